@@ -149,6 +149,10 @@ fn error_docs() -> Vec<String> {
     ]
 }
 
+pub fn examples_corpus_pub() -> Vec<String> {
+    examples_corpus()
+}
+
 fn examples_corpus() -> Vec<String> {
     let mut v = Vec::new();
     if let Ok(rd) = std::fs::read_dir("/repo/examples") {
